@@ -136,7 +136,7 @@ def generate(unit_dir, mustfail=False, mutate=None, variant=None, template='unit
             a, kw, b = rf.find_item(kind, name)
             raw = rf.text[a:b]
             drop = tuple(o['dropderive'].split(',')) if o.get('dropderive') else ()
-            txt = transform.strip_attrs_and_vis(raw, drop_derives=drop)
+            txt = transform.strip_attrs_and_vis(raw, drop_derives=drop, plain=plain)
             txt = publicize(txt, kind)
             if o.get('derive'):
                 txt = '#[derive(%s)]\n' % o['derive'].replace(',', ', ') + re.sub(r'#\[derive\([^)]*\)\]\s*', '', txt)
@@ -153,7 +153,7 @@ def generate(unit_dir, mustfail=False, mutate=None, variant=None, template='unit
             rel, qual = words[1], words[2]
             o = parse_opts(words[3:])
             spec = dict(rules=set(o.get('rules', '').split(',')) - {''}, loops={}, loopbody={}, afterloop={},
-                        closures={}, afterclosure={}, macros={}, aliases={}, before={})
+                        closures={}, afterclosure={}, macros={}, aliases={}, before={}, loopend={})
             if o.get('rename'):
                 spec['rename'] = o['rename']
             if o.get('retname'):
@@ -197,6 +197,8 @@ def generate(unit_dir, mustfail=False, mutate=None, variant=None, template='unit
                     spec['loops'][int(hdr[1])] = dict(inv=txt, iter=oo.get('iter'))
                 elif k == 'loopbody':
                     spec['loopbody'][int(hdr[1])] = txt
+                elif k == 'loopend':
+                    spec['loopend'][int(hdr[1])] = txt
                 elif k == 'afterloop':
                     spec['afterloop'][int(hdr[1])] = txt
                 elif k == 'closure':
